@@ -161,6 +161,52 @@ CHECKS.update({
              "ill-conditioned inputs are out of reach."),
 })
 
+CHECKS.update({
+    "C04": dict(
+        text=("The group action (PermuteVec/PermuteMat/Equivariant per output kind) is specified in "
+              "spec/Equivariance.tla; TLC proves Op(pi.A) = pi.Op(A) for the L0 operators of the other modules "
+              "(degrees, reachability, components, Dist, MinHops, betweenness, the eleven clustering definitions, "
+              "CoreSet) on all small graphs x all permutations, generates the permutations used by the harness, "
+              "and judges every recorded pair f(A), f(A[p,p]) for ~75 deterministic measures (118 variants) of "
+              "the registry on enumerated, random and highly symmetric graphs."),
+        design="5 C04", technique="TLA+ group-action relation; TLC lemma checking on L0 operators and validation of recorded output pairs",
+        note=TRUSTED + "Relational; 'has_repeated_structure' is a proxy for degenerate spectra. gateway_coef_sign is a known finding."),
+    "C05": dict(
+        text=("spec/RngDiscipline.tla models the global numpy stream, python's random and call histories with a "
+              "well-behaved abstract library and eight misbehaving ones; TLC checks that each clause holds for the "
+              "former and is violated by exactly the misbehaviours it should catch (matrix models), and enumerates "
+              "the call histories that are then executed against all 37 seed-accepting routines; every recorded "
+              "history (state fingerprints as tokens) is stepped through by TLC (Trace_RngDiscipline.tla)."),
+        design="5 C05", technique="TLA+ history machine model-checked by TLC; TLC-generated call histories executed and validated as behaviours",
+        note=TRUSTED + "Two inputs per routine; fingerprints (SHA-1 of states/results) are observations interned to tokens by the harness."),
+    "C13": dict(
+        text=("spec/CallerArrays.tla states the heap property over one call and TLC enumerates all 3608 programs of "
+              "up to three calls over abstract function classes (pure, copy-flag utility, alias-returning) proving "
+              "the statement on them and producing the program shapes; the harness instantiates them with every "
+              "public function of the registry (148 callable rows) on arrays with non-zero diagonal, signed "
+              "entries, arbitrary labels, int/float dtypes, also on raising inputs; TLC judges the recorded "
+              "before/after fingerprints."),
+        design="5 C13", technique="TLA+ heap/program model checked by TLC; TLC validation of recorded argument fingerprints for every public function",
+        note=TRUSTED + "Fingerprints = SHA-1 of bytes+dtype+shape (observation). Functions that cannot be called offline are listed as uncovered in the evidence."),
+    "C19": dict(
+        text=("Exact t-statistic comparison by cross-multiplied integers, supra-threshold graph, components "
+              "(Components.tla), link counts, labels and p-values in spec/Nbs.tla; an L2 machine of the permutation "
+              "loop is checked by TLC for all draws on small instances (null = largest component, p-values, "
+              "group/tail swap, reordering). TLC -simulate behaviours with permutation/sign scripts are replayed "
+              "so that the returned null array is predicted exactly; seeded runs log every draw served and TLC "
+              "recomputes every null entry."),
+        design="5 C19", technique="TLA+ NBS machine model-checked by TLC; scripted replay and draw-logged trace validation with exact integer t-tests",
+        note=TRUSTED + "Integer data 0..3, n<=7; exact ties t = thr accept either outcome; independence of the k draws is not judged."),
+    "C20": dict(
+        text=("Output contracts (shape, 0/1, diagonal, count, symmetry, row/column sums, ring-lattice band order) "
+              "and L2 machines of the intended algorithms (RandImpl, RingLatticeImpl, DegreesFixedImpl: every "
+              "permutation entry and repair draw a nondeterministic parameter) are checked by TLC for all small "
+              "N, K and degree-sequence pairs; exhaustive and -simulate behaviours are replayed through scripted "
+              "permutations into the real generators, seeded runs cover the rest; TLC judges every output."),
+        design="5 C20", technique="TLA+ generator machines model-checked by TLC; scripted replay and TLC validation of generated matrices",
+        note=TRUSTED + "maketoeplitzCIJ/makeevenCIJ/makefractalCIJ: contracts only (their draws are whole random matrices)."),
+})
+
 REASON_TODO = "check not built yet in this round (planned, see DESIGN.md section 9); nothing is claimed"
 
 
